@@ -353,7 +353,7 @@ def t6_whole_input(ctx):
     r.check(rr and sig(rr[0][2]) == "Covenant::Covenant{0: Arc::new(std::slice::<impl [T]>::to_vec($1))}", "from_ops", "from_ops copies the op list", "from_ops returns %s" % (sig(rr[0][2]) if rr else "?"))
     to = ctx.body("melvm::Covenant::to_ops", r)
     rr = q.ret_assignments(to)
-    r.check(rr and sig(rr[0][2]) == "$1.0", "to_ops", "to_ops clones the op list", "to_ops returns %s" % (sig(rr[0][2]) if rr else "?"))
+    r.check(rr and sig(rr[0][2]) in ("$1.0", "std::slice::<impl [T]>::to_vec($1.0)"), "to_ops", "to_ops copies the op list", "to_ops returns %s" % (sig(rr[0][2]) if rr else "?"))
     w = ctx.body("melvm::Covenant::weight", r)
     rr = q.ret_assignments(w)
     r.check(rr and sig(rr[0][2]) == "opcode::opcodes_weight($1.0)", "weight", "weight = opcodes_weight(ops)", "weight returns %s" % (sig(rr[0][2]) if rr else "?"))
